@@ -11,10 +11,10 @@ RULE = (
     "one strategy per invalid-input class of the statement, instantiated over lattice positions, poses and "
     "magnitudes, in two flavours: exactly degenerate and degenerate up to a displacement of 1e-12 (or 1e-13) of "
     "one coordinate: zero-length Line/Segment/HalfLine (Point-Point, Point-Vector, Vector-Vector forms); polygon "
-    "with < 3 points, < 3 distinct points, collinear points, one vertex off the plane by >= 1/64; Plane with zero "
+    "with < 3 points, < 3 distinct points, collinear points, one vertex off the plane by >= 1/64 (3-8 vertices, the lifted vertex at every input position); Plane with zero "
     "normal, collinear points, parallel vectors, (0,0,0,d); Parallelogram/Parallelepiped with zero, parallel or "
     "coplanar edge vectors; Pyramid with apex in the base plane; open / over-closed / flat face sets (also two "
-    "disjoint faces and an open shell plus a detached polygon, which satisfy Euler's formula); Circle and "
+    "disjoint faces, an open shell plus a detached polygon, and a face swapped for an interior polygon on existing edges - all of which satisfy Euler's formula); Circle and "
     "get_circle_point_list with n < 3; get_segment_from_point_list on < 2 or non-collinear points; unsupported "
     "operand type pairs (complement of each documented table, plus Vector, foreign and falsy values such as 0, '', (), "
     "[], {}) for the module "
